@@ -562,3 +562,10 @@ Theorem C13_f64_ramps_unit :
      ffinite (mf_linz F64_ops x a b) = true /\ 0 <= f2r (mf_linz F64_ops x a b) <= 1).
 Proof. exact f64_mf_ramps_unit. Qed.
 Print Assumptions C13_f64_ramps_unit.
+
+Theorem C13_f64_trap_unit : forall x a b c d, okf x -> okf a -> okf b -> okf c -> okf d ->
+  (ffinite (mf_trap F64_ops x a b c d) = true /\
+   f2r (mf_trap F64_ops x a b c d) = mf_trap (Rnd_ops rnd64) (f2r x) (f2r a) (f2r b) (f2r c) (f2r d)) /\
+  0 <= f2r (mf_trap F64_ops x a b c d) <= 1.
+Proof. exact (fun x a b c d Ox Oa Ob Oc Od => conj (f64_mf_trap_refines x a b c d Ox Oa Ob Oc Od) (proj2 (f64_mf_trap_unit x a b c d Ox Oa Ob Oc Od))). Qed.
+Print Assumptions C13_f64_trap_unit.
